@@ -62,3 +62,132 @@ let () =
         outcome_s (fun g -> [Sexp.to_string (Sexp.L (List.map (fun (k, v) -> Sexp.L [Sexp.A (sx k); value_to v]) g))])
           (parse_globals parse (nat_of_int (int_field fuel)) (bstr_of_hex input))
     | _ -> failwith "c06_globals: arity")
+
+(* ---- second wave: byte-string entry points, the call-depth cap ---- *)
+let () =
+  (* c06_eval_bytes <#fuel> <text hex> -> outcome, value sexp: parse.Expr (scanner + parser models) then EvalExpr *)
+  register "c06_eval_bytes" (fun a ->
+    match a with
+    | [fuel; txt] ->
+        outcome_s (fun v -> [Sexp.to_string (value_to v)])
+          (eval_expr_bytes (nat_of_int (int_field fuel)) (bstr_of_hex txt))
+    | _ -> failwith "c06_eval_bytes: arity");
+  (* c06_parse_bytes <text hex> -> outcome class only *)
+  register "c06_parse_bytes" (fun a ->
+    match a with
+    | [txt] -> outcome_s (fun _ -> []) (parse_expr_bytes (bstr_of_hex txt))
+    | _ -> failwith "c06_parse_bytes: arity");
+  (* c06_globals_bytes <#fuel> <input hex> -> outcome, ((xkey value) ...) *)
+  register "c06_globals_bytes" (fun a ->
+    match a with
+    | [fuel; input] ->
+        outcome_s (fun g -> [Sexp.to_string (Sexp.L (List.map (fun (k, v) -> Sexp.L [Sexp.A (sx k); value_to v]) g))])
+          (parse_globals_bytes (nat_of_int (int_field fuel)) (bstr_of_hex input))
+    | _ -> failwith "c06_globals_bytes: arity");
+  (* c06_depth <key> <xTemplate> <#d> <ij sexp | none> ; <data sexp>
+     -> <fuel = reg_height * (d+1)> <class of the d-capped walk with that fuel> <class of the (d-1)-capped walk>
+        <class of render with that fuel>
+     classes: answer | capped | fuel | crash | diverge *)
+  register "c06_depth" (fun a ->
+    match a with
+    | key :: tname :: d :: rest ->
+        let reg = Hashtbl.find Ops_interp.registries key in
+        let s = String.concat " " rest in
+        let (ijs, ds) = (match String.index_opt s ';' with
+                         | Some i -> (String.trim (String.sub s 0 i), String.trim (String.sub s (i + 1) (String.length s - i - 1)))
+                         | None -> failwith "c06_depth: missing ;") in
+        let ij = if ijs = "none" then None else Some (value_of (Sexp.parse ijs)) in
+        let (did, dm) = (match value_of (Sexp.parse ds) with
+                         | VMap (id, m) -> (id, m)
+                         | VNull -> (N0, [])
+                         | _ -> failwith "c06_depth: data must be a map") in
+        let cf = { c_reg = reg; c_ij = ij; c_oblig = []; c_msgs = None } in
+        let d = int_field d in
+        let h = int_of_nat (reg_height reg) in
+        let fuel = h * (d + 1) in
+        let name = xs tname in
+        let cls (o : value outcome) = (match o with
+            | Ok _ -> "answer"
+            | Err m -> if m = e_capped then "capped" else "answer"
+            | OutOfModel -> "answer" | OutOfFuel -> "fuel" | Crash _ -> "crash" | Diverge -> "diverge") in
+        (match find_template reg.r_templates name with
+         | None -> ["#" ^ string_of_int fuel; "notemplate"; "notemplate"; "notemplate"]
+         | Some t ->
+             let st0 = init_state (sc_enter (new_scope did dm)) (entry_mode t.t_ns_autoescape) name None None (n_of_int 1000000) in
+             let run cap = cls (fst (walk_cap cf (nat_of_int cap) (nat_of_int fuel) t.t_node st0)) in
+             let r = render cf (nat_of_int fuel) name did dm None None (n_of_int 1000000) in
+             let rc = (match r.rr_outcome with
+                       | Ok _ | Err _ | OutOfModel -> "answer" | OutOfFuel -> "fuel" | Crash _ -> "crash" | Diverge -> "diverge") in
+             ["#" ^ string_of_int fuel; run d; (if d = 0 then "none" else run (d - 1)); rc])
+    | _ -> failwith "c06_depth: arity")
+
+(* ---- the extended model (Model/InterpJson.v): escapeJsString, json, round with digits ---- *)
+let () =
+  (* render_xj: same request and answer as "render" (ops_interp.ml), through Model.render_xj *)
+  register "render_xj" (fun a ->
+    match a with
+    | key :: tname :: fuel :: cl :: bl :: oblig :: rest ->
+        let reg = Hashtbl.find Ops_interp.registries key in
+        let s = String.concat " " rest in
+        let (ijs, ds) = (match String.index_opt s ';' with
+                         | Some i -> (String.trim (String.sub s 0 i), String.trim (String.sub s (i + 1) (String.length s - i - 1)))
+                         | None -> failwith "render_xj: missing ;") in
+        let ij = if ijs = "none" then None else Some (value_of (Sexp.parse ijs)) in
+        let (did, dm) = (match value_of (Sexp.parse ds) with
+                         | VMap (id, m) -> (id, m)
+                         | VNull -> (N0, [])
+                         | _ -> failwith "render_xj: data must be a map") in
+        let ob = if oblig = "-" then [] else List.map (fun h -> bstr_of_hex h) (String.split_on_char ',' oblig) in
+        let cf = { c_reg = reg; c_ij = ij; c_oblig = ob; c_msgs = None } in
+        let r = render_xj cf (nat_of_int (int_field fuel)) (xs tname) did dm (Ops_interp.opt_nat cl) (Ops_interp.opt_n bl) (n_of_int 1000000) in
+        let cls = (match r.rr_outcome with
+                   | Ok _ -> ["ok"] | Err m -> ["err"; hex_of_bstr m] | Crash m -> ["crash"; hex_of_bstr m]
+                   | Diverge -> ["diverge"] | OutOfFuel -> ["fuel"] | OutOfModel -> ["outofmodel"]) in
+        [String.concat "," cls; hex_of_bstr r.rr_file; n_s r.rr_line; "#" ^ string_of_int (int_of_nat r.rr_unbound);
+         "#" ^ string_of_int (List.length r.rr_shared_writes)] @ List.map hex_of_bstr r.rr_writes
+    | _ -> failwith "render_xj")
+
+(* ---- user functions and directives: the behaviours installed by the harness (c06InstallUserCode) ---- *)
+let () =
+  let bs = bstr_of_string in
+  let ufuncs (name : n list) : user_func option =
+    if name = bs "userPanic" then Some { uf_arities = [n_of_int 0; n_of_int 1]; uf_apply = (fun _ -> UPanic (bs "boom")) }
+    else if name = bs "userRuntime" then Some { uf_arities = [n_of_int 0]; uf_apply = (fun _ -> UPanic (bs "assignment to entry in nil map")) }
+    else if name = bs "userNil" then Some { uf_arities = [n_of_int 0]; uf_apply = (fun _ -> UReturn None) }
+    else if name = bs "userId" then Some { uf_arities = [n_of_int 1]; uf_apply = (function [v] -> UReturn (Some v) | _ -> UPanic (bs "index out of range")) }
+    else if name = bs "userLen" then Some { uf_arities = [n_of_int 1];
+           uf_apply = (function [VList (_, l)] -> UReturn (Some (VInt (z_of_int (List.length l)))) | _ -> UPanic (bs "interface conversion")) }
+    else None in
+  let udirs (name : n list) : user_directive option =
+    if name = bs "udPanic" then Some { ud_arities = [n_of_int 0]; ud_cancel = true; ud_apply = (fun _ _ -> UPanic (bs "boom")) }
+    else if name = bs "udNil" then Some { ud_arities = [n_of_int 0]; ud_cancel = false; ud_apply = (fun _ _ -> UReturn None) }
+    else if name = bs "udId" then Some { ud_arities = [n_of_int 0]; ud_cancel = false; ud_apply = (fun v _ -> UReturn v) }
+    else if name = bs "udCount" then Some { ud_arities = [n_of_int 0]; ud_cancel = true;
+           ud_apply = (fun v _ -> match v with Some (VList (_, l)) -> UReturn (Some (VInt (z_of_int (List.length l)))) | _ -> UPanic (bs "interface conversion")) }
+    else None in
+  (* the user's entries over the extended model's *)
+  let fhooks name = (match ufuncs name with Some uf -> Some (hook_of_user uf) | None -> x_funcs name) in
+  let dtable name = (match udirs name with Some ud -> Some (dir_of_user ud) | None -> x_dirs name) in
+  (* c06_render_user: same request and answer as "render" *)
+  register "c06_render_user" (fun a ->
+    match a with
+    | key :: tname :: fuel :: cl :: bl :: oblig :: rest ->
+        let reg = Hashtbl.find Ops_interp.registries key in
+        let s = String.concat " " rest in
+        let (ijs, ds) = (match String.index_opt s ';' with
+                         | Some i -> (String.trim (String.sub s 0 i), String.trim (String.sub s (i + 1) (String.length s - i - 1)))
+                         | None -> failwith "c06_render_user: missing ;") in
+        let ij = if ijs = "none" then None else Some (value_of (Sexp.parse ijs)) in
+        let (did, dm) = (match value_of (Sexp.parse ds) with
+                         | VMap (id, m) -> (id, m)
+                         | VNull -> (N0, [])
+                         | _ -> failwith "c06_render_user: data must be a map") in
+        let ob = if oblig = "-" then [] else List.map (fun h -> bstr_of_hex h) (String.split_on_char ',' oblig) in
+        let cf = { c_reg = reg; c_ij = ij; c_oblig = ob; c_msgs = None } in
+        let r = render_hook cf fhooks dtable (nat_of_int (int_field fuel)) (xs tname) did dm (Ops_interp.opt_nat cl) (Ops_interp.opt_n bl) (n_of_int 1000000) in
+        let cls = (match r.rr_outcome with
+                   | Ok _ -> ["ok"] | Err m -> ["err"; hex_of_bstr m] | Crash m -> ["crash"; hex_of_bstr m]
+                   | Diverge -> ["diverge"] | OutOfFuel -> ["fuel"] | OutOfModel -> ["outofmodel"]) in
+        [String.concat "," cls; hex_of_bstr r.rr_file; n_s r.rr_line; "#" ^ string_of_int (int_of_nat r.rr_unbound);
+         "#" ^ string_of_int (List.length r.rr_shared_writes)] @ List.map hex_of_bstr r.rr_writes
+    | _ -> failwith "c06_render_user")
